@@ -53,6 +53,8 @@ structure Order where
   quantity : Rat
   price : Rat
   state : Active
+  /-- `key.exchange` as recorded from the request / snapshot that created the entry -/
+  exchange : Nat := 0
   deriving DecidableEq, Repr, Inhabited
 
 /-- An order snapshot from the exchange: `Order<_, _, OrderState>` with its client order id. -/
@@ -61,6 +63,8 @@ structure Snap where
   quantity : Rat
   price : Rat
   state : OState
+  /-- `key.exchange` of the snapshot -/
+  exchange : Nat := 0
   deriving DecidableEq, Repr, Inhabited
 
 abbrev Orders := List (Nat × Order)
@@ -93,8 +97,8 @@ def updateFromSnapshot (m : Orders) (s : Snap) : Orders :=
   | none, .active a =>
     match a with
     | .opn o => if remZero s.quantity o then m
-                else insert m s.cid { quantity := s.quantity, price := s.price, state := a }
-    | _ => insert m s.cid { quantity := s.quantity, price := s.price, state := a }
+                else insert m s.cid { quantity := s.quantity, price := s.price, state := a, exchange := s.exchange }
+    | _ => insert m s.cid { quantity := s.quantity, price := s.price, state := a, exchange := s.exchange }
   -- (Occupied, None)
   | some _, .inactive _ => erase m s.cid
   -- (Occupied, Some(update))
@@ -144,25 +148,25 @@ def recordInFlightCancel (m : Orders) (cid : Nat) : Orders :=
   | some cur => setState m cid cur (.cancelInFlight cur.state.openMeta)
 
 /-- `record_in_flight_open` (order/mod.rs:400-410) with `Order::from(&OrderRequestOpen)`. -/
-def recordInFlightOpen (m : Orders) (cid : Nat) (quantity price : Rat) : Orders :=
-  insert m cid { quantity := quantity, price := price, state := .inFlight }
+def recordInFlightOpen (m : Orders) (cid : Nat) (quantity price : Rat) (exchange : Nat := 0) : Orders :=
+  insert m cid { quantity := quantity, price := price, state := .inFlight, exchange := exchange }
 
 /-- One input to a single instrument's `Orders`. -/
 inductive Op where
-  | recOpen (cid : Nat) (quantity price : Rat)
+  | recOpen (cid : Nat) (quantity price : Rat) (exchange : Nat := 0)
   | recCancel (cid : Nat)
   | snapshot (s : Snap)
   | cancelResp (cid : Nat) (ok : Bool)
   deriving DecidableEq, Repr
 
 def Op.cid : Op → Nat
-  | .recOpen c _ _ => c
+  | .recOpen c _ _ _ => c
   | .recCancel c => c
   | .snapshot s => s.cid
   | .cancelResp c _ => c
 
 def step (m : Orders) : Op → Orders
-  | .recOpen c q p => recordInFlightOpen m c q p
+  | .recOpen c q p x => recordInFlightOpen m c q p x
   | .recCancel c => recordInFlightCancel m c
   | .snapshot s => updateFromSnapshot m s
   | .cancelResp c ok => updateFromCancelResponse m c ok
@@ -239,7 +243,7 @@ def Lifecycle.step (st : Option Active) : Input → Option Active
 /-- The lifecycle input that an `Op` is for client order id `c` (`none`: it is about another id, or it
 is a hand-built snapshot carrying a cancel-in-flight marker, which no exchange sends). -/
 def Op.input (c : Nat) : Op → Option Input
-  | .recOpen c' _ _ => if c' = c then some .requestOpenSent else none
+  | .recOpen c' _ _ _ => if c' = c then some .requestOpenSent else none
   | .recCancel c' => if c' = c then some .requestCancelSent else none
   | .cancelResp c' ok => if c' = c then some (if ok then .cancelOk else .cancelErr) else none
   | .snapshot s =>
